@@ -21,4 +21,5 @@ let table : (string * (z list list list -> z list list)) list = [
   ("c08_replay", e_c08_replay);
   ("udp_model", e_udp_model);
   ("c17_replay", e_c17_replay);
+  ("net_model", e_net_model);
 ]
